@@ -234,6 +234,11 @@ def run_property(prop, tier, seed, only=None, dump=None):
                 # the function was edited and a local the loop invariant / ghost clause names is gone (e.g. renamed): the
                 # contract no longer fits the text -- nothing is decided by proof; the run-time contract still speaks
                 res.error = ('unsupported', 'the contract names a local variable the edited function no longer has: ' + res.error[1][-160:])
+            elif not k and changed and 'EngineError' in res.error[1]:
+                # the function was edited and now reads state / names the contract's description of its inputs does not
+                # provide (an attribute of a parameter object, a variable of the enclosing function): the contract no longer
+                # fits the text.  On the pinned text (hash = lock) the same message would be a checker error.
+                res.error = ('unsupported', 'the edited function reads something the contract does not describe: ' + res.error[1][-200:])
             elif not k:
                 crashes.append('%s: %s' % (u.short, res.error[1]))
         if not unknown_to_known and not res.error:
